@@ -25,7 +25,7 @@ RULE = (
     "A case is a batch of 12 scenarios taken in turn from a seed-shuffled permutation of the shared catalogue of library-component scenarios, so the quick tier (ceil(N/12) batches) executes every one of the N ~ 300 scenarios (catalogue + determinism-specific ones: string-fed sketches, every cache eviction policy under string keys, default-clock TTL cache, a ParallelSimulation fan-in whose worker threads are slowed in real time, load-balancer strategies fed with key-less requests, CRDT stores with a late joiner) (all families: "
     "sources, queues, servers, networks, consensus, storage, caches, sketches fed with str/bytes/tuple items, messaging, "
     "...; default or hostile parameters) with one seed each (seed 0, a legal and falsy seed, 12 % of the time), executed in 4 fresh interpreters: PYTHONHASHSEED=0 in "
-    "catalogue order; =1 in reverse order with an unrelated Simulation constructed (never run) between building each model and running it; =12345 shuffled, three of the scenarios run twice in a row; =random with "
+    "catalogue order; =1 in reverse order with an unrelated Simulation constructed (never run) between building each model and running it; =12345 shuffled, every scenario run twice in a row; =random with "
     "time.time/monotonic/perf_counter replaced by offset+jumping clocks (the wall clock also stepping backwards). All executions of one (scenario, seed) must "
     "have equal digests = sha256(delivery log (time ns, event type, target) from the engine probe + public stats "
     "snapshot of every component, wall-clock fields removed). A mismatch is diagnosed by re-running that scenario alone "
@@ -94,8 +94,9 @@ def run(case: dict) -> Result:
     plans = [
         ("0", list(range(n)), None, "A"),
         ("1", list(reversed(range(n))), None, "B+bystander"),
-        # every scenario once in shuffled order, the first three of them twice in a row
-        ("12345", [i for k, i in enumerate(case["shuffle"]) for _ in ((0, 1) if k < 3 else (0,))], None, None),
+        # shuffled order, every scenario twice in a row (state a component family leaves behind in the process -
+        # module-level buffers, caches, counters - meets the next model of the same family)
+        ("12345", [i for i in case["shuffle"] for _ in (0, 1)], None, None),
         ("random", list(range(n)), case["time"], "A"),
     ]
     runs = []
